@@ -91,6 +91,14 @@ def scaleAll : List Nat → List Pt → List Pt
   | c :: cs, p :: ps => smul (c : Int) p :: scaleAll cs ps
   | _, _ => []
 
+/-- `next((b for b in xonlys if b != x0), None)` -/
+def secondKey (x0 : Bytes) (xonlys : List Bytes) : Option Bytes := xonlys.find? (fun b => b != x0)
+
+/-- the KeyAgg coefficient of a key (repaired code, F13a): a function of the key value — 1 for the second
+    distinct key (`b == second`; never when `second` is None), else `int(H_KeyAggCoef(commitment ‖ b))` -/
+def coefOf (H : Hashes) (commitment : Bytes) (second : Option Bytes) (b : Bytes) : Nat :=
+  if some b = second then Gen.muSigCoefValue else beToNat (H.keyAggCoef (commitment ++ b))
+
 /-- MuSigTapScript(points, locktime, sequence) -/
 def musigNew (H : Hashes) (points : List Pt) (locktime sequence : Option Nat) : Option MuSig := do
   let pre ← timelockCmds locktime sequence
@@ -98,10 +106,10 @@ def musigNew (H : Hashes) (points : List Pt) (locktime sequence : Option Nat) : 
   let xonlys := sortBytes (points.map xonly)
   let pts ← parseAll xonlys
   let commitment := H.keyAggList xonlys.flatten
-  let coefs0 := xonlys.map (fun b => beToNat (H.keyAggCoef (commitment ++ b)))
-  -- `self.coefs[1] = 1` (IndexError for a single key)
-  if coefs0.length ≤ Gen.muSigCoefIndex then none else
-  let coefs := coefs0.set Gen.muSigCoefIndex Gen.muSigCoefValue
+  -- `xonlys[0]` (IndexError cannot happen: the list is not empty)
+  let x0 ← xonlys[Gen.muSigFirstIndex]?
+  let second := secondKey x0 xonlys
+  let coefs := xonlys.map (coefOf H commitment second)
   let point ← combinePts (scaleAll coefs pts)
   pure { xonlys := xonlys, points := pts, commitment := commitment, coefs := coefs, point := point,
          cmds := pre ++ [.push (xonly point), .op Gen.muSigOpChecksig] }
